@@ -43,13 +43,13 @@ def tla_module(items):
         L = it["L"]
         lets = " ".join("%s == Ser([i \\in 1..%d |-> w[i][%d]])" % (nm, L, j + 1) for j, nm in enumerate(names))
         ths = []
-        for label, ex, sel in e["outs"]:
+        for label, ex, sel in [o[:3] for o in e["outs"]]:
             dp, dv = F.DEGREES[e["pipe"]][sel] if isinstance(sel, int) else SQ_DEG[label]
             base = ex.format(*it["cfg"])
             # the same expression over the scaled inputs: substitute by LET-bound primed names
             ths.append("HomogOK(%s, Hp_%d_%d, %d) /\\ HomogOK(%s, Hv_%d_%d, %d)" % (base, k, len(ths), dp, base, k, len(ths), dv))
         defs = []
-        for j, (label, ex, sel) in enumerate(e["outs"]):
+        for j, (label, ex, sel) in enumerate(o[:3] for o in e["outs"]):
             base = ex.format(*it["cfg"])
             defs.append((j, base))
         # scaled variants are written out by renaming the input names inside a nested LET
@@ -64,7 +64,7 @@ def tla_module(items):
             return re.sub(r"\b(%s)\b" % "|".join(names), lambda m: m.group(1) + "_", expr)
         th_items = []
         for j, base in defs:
-            label, ex, sel = e["outs"][j]
+            label, ex, sel = e["outs"][j][:3]
             dp, dv = F.DEGREES[e["pipe"]][sel] if isinstance(sel, int) else SQ_DEG[label]
             th_items.append("(LET %s IN HomogOK(%s, %s, %d))" % (inner_p, base, rename(base), dp))
             th_items.append("(LET %s IN HomogOK(%s, %s, %d))" % (inner_v, base, rename(base), dv))
